@@ -340,6 +340,14 @@ def _mat_getitem(it, base, idx):
             if is_idx(i) and is_full_slice(j):
                 ii = idxterm(p, i, base.n)
                 return Vec(base.m, lambda b: base.at(ii, b))
+            if isinstance(i, tuple) and len(i) == 4 and i[0] == 'slice':
+                i = slice(i[1], i[2], i[3])
+            if isinstance(i, slice) and i.start is None and i.step is None and is_idx(i.stop) and is_idx(j):
+                # a[:k, j] - numpy clamps the stop to the number of rows (negative stop counts from the end)
+                jj = idxterm(p, j, base.m)
+                k, n = term(i.stop), term(base.n)
+                ln = z3.simplify(z3.If(k < 0, z3.If(n + k > 0, n + k, 0), z3.If(k < n, k, n)))
+                return Vec(ln, lambda a: base.at(a, jj))
         if is_idx(idx):
             ii = idxterm(p, idx, base.n)
             return Vec(base.m, lambda b: base.at(ii, b))
